@@ -214,6 +214,10 @@ pub open spec fn no_ph_parts(s: Seq<TemplatePart>) -> bool { forall|k: int| 0 <=
 //@   mutant expr_parse_empty_template "if !buf.is_empty() || parts.is_empty() {" => "if !buf.is_empty() {" expect parse
 //@ end
 
+// the path rewriter applied to an embedded template expression (unit rewrite_paths): total, anything may come out (havoc)
+#[verifier::external_body]
+pub fn verif_rewrite_paths_havoc(expr: &mut Expression) { unimplemented!() }
+
 //@ extract src/build/opcode/translate.rs :: impl AST :: fn translate_template_part
 //@   no_impl
 //@   subst "fn translate_template_part<EI: Iterator<Item = Expression>>(" => "fn translate_template_part("
@@ -222,6 +226,7 @@ pub open spec fn no_ph_parts(s: Seq<TemplatePart>) -> bool { forall|k: int| 0 <=
 //@   subst "let part: String = s.into_iter().map(|c| c.to_string()).collect();" => "let part: String = verif_chars_to_string(s);"
 //@   subst "part.into()" => "verif_string_into_rcstr(part)"
 //@   subst all "Self::translate_expr" => "translate_expr"
+//@   subst? "Rewriter::new(root).walk_expression(&mut expr);" => "verif_rewrite_paths_havoc(&mut expr);"
 //@   sig <<<
         requires
             // the two `unreachable!()`s and the `unwrap()`
